@@ -49,7 +49,10 @@ def model(mode, has_o, inputs, fault):
     if mode == 'link':
         steps.append(('ld', 1, None, None))
     done = set(); failed = False
-    if fault is not None and fault[0] == 'outdir' and not (mode == '-S' and all(k.endswith('.s') for n_, k in inputs)):
+    # an output path in a missing directory is a failure only if the command writes an output at all: with -S nothing is written
+    # for .s and .o inputs, with -c and -E nothing for .o inputs
+    writes = mode == 'link' or any(k.endswith('.c') or (mode == '-c' and k.endswith('.s')) for n_, k in inputs)
+    if fault is not None and fault[0] == 'outdir' and writes:
         failed = True          # (-S with only assembler inputs writes nothing, so an unwritable -o is not a failure)
     else:
         for tool, n, i, kind in steps:
@@ -158,6 +161,8 @@ def all_jobs(tier):
             for kinds in itertools.product(KINDS, repeat=n):
                 if mode == '-E' and any(k.endswith('.s') or k.endswith('.o') for k in kinds):
                     continue
+                if kinds.count('obj.o') > 1 or (n == 3 and 'obj.o' in kinds and tier == 'quick' and list(kinds) != sorted(kinds)):
+                    continue          # pre-built objects: one per command; quick tier takes one order of each 3-input combination
                 if n == 3 and tier == 'quick' and len(set(kinds)) == 3 and kinds[0] > kinds[1]:
                     continue          # quick tier: permutations of three distinct kinds thinned (thorough runs all)
                 for has_o in (False, True):
